@@ -18,6 +18,7 @@ from decimal import Decimal
 from common import *   # noqa
 import props.c19_codec as CC
 import props.c19_io as IO
+import props.c19_stvsys as SY
 
 ID = 'C19'
 NAMESPACE = 'VL.C19'
@@ -29,8 +30,9 @@ REQUIRED = ['codec_roundtrip', 'codec_reserialize_stable', 'to_from_dict_roundtr
             'blt_roundtrip', 'blt_dump_refuses_iff', 'blt_save_or_faithful', 'blt_written_string_uncut', 'blt_comment_start_examples',
             'blt_parse_total', 'blt_oneplus_below_one', 'blt_repeated_ballot_exact', 'blt_loaded_indices_valid', 'blt_former_foreign_errors',
             'Stv.stv_nicks_distinct', 'Stv.stv_nicks_nonempty', 'Stv.stv_roundtrip', 'Stv.stv_blt_mode_roundtrip', 'Stv.stv_dump_refuses',
-            'Stv.stv_dump_refuses_negative', 'Stv.stv_header_roundtrip', 'Stv.stv_parse_total', 'Stv.stv_loaded_indices_valid',
-            'Stv.stv_blt_mode_header_candidates', 'Stv.stv_repeated_ballot_exact', 'Stv.stv_former_foreign_errors',
+            'Stv.stv_dump_refuses_negative', 'Stv.stv_header_roundtrip', 'Stv.stv_sys_dump_refuses_iff', 'Stv.stv_sys_classification',
+            'Stv.stv_roundtrip_complete_system', 'Stv.stv_sys_incomplete', 'Stv.stv_sys_witnesses', 'Stv.stv_parse_total', 'Stv.stv_loaded_indices_valid',
+            'Stv.stv_blt_mode_header_candidates', 'Stv.stv_repeated_ballot_exact', 'Stv.stv_ordered_format', 'Stv.stv_former_foreign_errors',
             'Stv.stv_end_and_empty_ballot_reload']
 REQUIRED_COUNTERS = ['codec_frac', 'codec_dec', 'codec_tuple', 'codec_fset', 'codec_sdict', 'codec_gdict', 'codec_obj', 'codec_callable',
                      'codec_depth_4', 'unrepresentable', 'codec_plain_set', 'codec_reserved_key', 'codec_equal_values_different_types',
@@ -49,7 +51,12 @@ REQUIRED_COUNTERS = ['codec_frac', 'codec_dec', 'codec_tuple', 'codec_fset', 'co
                      'stv_title_none', 'stv_empty_ballot_w1', 'stv_nick_end', 'stv_name_no_initials', 'stv_decimal_exponent',
                      'stv_writer_must_refuse', 'stv_withdrawn', 'stv_weight_frac', 'stv_weight_dec',
                      'stv_text', 'mut_header_junk', 'stv_quota_registry', 'stv_header_directed',
-                     'structure_directed', 'text_repeated_ballot', 'blt_text_repeated_decimal_weight', 'stv_text_repeated_decimal_weight', 'stv_text_blt_content', 'may_refuse_negative_weight', 'stv_blt_mode_with_header_candidates', 'class_directed', 'class_custom_inputs', 'codec_directed', 'text_variant_directed', 'blt_oneplus', 'blt_oneplus_directed', 'mut_crlf', 'mut_bom', 'mut_no_final_newline', 'blt_zero_ballots', 'blt_all_withdrawn', 'blt_27plus_candidates', 'blt_one_candidate', 'blt_cand_int', 'blt_cand_person', 'blt_cand_person_full', 'blt_cand_str', 'blt_names_differ_in_case_only', 'blt_names_differ_in_whitespace_only', 'blt_name_non_ascii', 'blt_title_non_ascii', 'blt_weight_zero_int', 'blt_weight_zero_dec', 'blt_weight_zero_frac', 'blt_weight_negative', 'blt_weight_huge_denominator', 'blt_weight_decimal_exponent', 'blt_weight_2_53_and_above', 'blt_weight_10_400', 'stv_zero_ballots', 'stv_all_withdrawn', 'stv_27plus_candidates', 'stv_one_candidate', 'stv_cand_int', 'stv_cand_person', 'stv_cand_person_full', 'stv_cand_str', 'stv_names_differ_in_case_only', 'stv_names_differ_in_whitespace_only', 'stv_name_non_ascii', 'stv_title_non_ascii', 'stv_weight_zero_int', 'stv_weight_zero_dec', 'stv_weight_zero_frac', 'stv_weight_negative', 'stv_weight_huge_denominator', 'stv_weight_decimal_exponent', 'stv_weight_2_53_and_above', 'stv_weight_10_400', 'blt_name_empty']
+                     'structure_directed', 'text_repeated_ballot', 'blt_text_repeated_decimal_weight', 'stv_text_repeated_decimal_weight', 'stv_text_blt_content', 'may_refuse_negative_weight', 'stv_blt_mode_with_header_candidates', 'class_directed', 'class_custom_inputs', 'codec_directed', 'text_variant_directed', 'blt_oneplus', 'blt_oneplus_directed', 'mut_crlf', 'mut_bom', 'mut_no_final_newline', 'blt_zero_ballots', 'blt_all_withdrawn', 'blt_27plus_candidates', 'blt_one_candidate', 'blt_cand_int', 'blt_cand_person', 'blt_cand_person_full', 'blt_cand_str', 'blt_names_differ_in_case_only', 'blt_names_differ_in_whitespace_only', 'blt_name_non_ascii', 'blt_title_non_ascii', 'blt_weight_zero_int', 'blt_weight_zero_dec', 'blt_weight_zero_frac', 'blt_weight_negative', 'blt_weight_huge_denominator', 'blt_weight_decimal_exponent', 'blt_weight_2_53_and_above', 'blt_weight_10_400', 'stv_zero_ballots', 'stv_all_withdrawn', 'stv_27plus_candidates', 'stv_one_candidate', 'stv_cand_int', 'stv_cand_person', 'stv_cand_person_full', 'stv_cand_str', 'stv_names_differ_in_case_only', 'stv_names_differ_in_whitespace_only', 'stv_name_non_ascii', 'stv_title_non_ascii', 'stv_weight_zero_int', 'stv_weight_zero_dec', 'stv_weight_zero_frac', 'stv_weight_negative', 'stv_weight_huge_denominator', 'stv_weight_decimal_exponent', 'stv_weight_2_53_and_above', 'stv_weight_10_400', 'blt_name_empty',
+                     'blt_name_inner_ws_run', 'blt_name_inner_tab', 'blt_name_inner_non_ascii_space', 'stv_name_inner_ws_run', 'stv_name_inner_tab',
+                     'stv_name_inner_non_ascii_space', 'blt_title_inner_ws_run', 'stv_title_inner_ws_run', 'stv_text_name_inner_ws',
+                     'stv_ordered', 'stv_ordered_written', 'stv_ordered_partial_order', 'stv_ordered_empty_ballot',
+                     'stv_sys', 'stv_sys_directed', 'stv_sys_supported', 'stv_sys_refusable', 'stv_sys_unknown_evaluator', 'stv_sys_nameless_quota',
+                     'stv_sys_duplicate_setting', 'stv_sys_unseeded_sortitor', 'stv_sys_accept_quota_equal', 'stv_sys_tie_subsetter', 'stv_sys_depth_4']
 RULE = ('codec: random value trees of depth <= 4 over atoms (None/bool/int up to 10^30/float/str incl. unicode and identifier-like), '
         'Fraction, Decimal, list, tuple, frozenset, str-keyed and general dicts, objects (Person, PoliticalParty, NoneOfTheAbove, '
         'AbsoluteThreshold) and callables by name; plus directed streams: an unrepresentable leaf (closure, lambda, same-named local def, '
@@ -60,6 +67,11 @@ RULE = ('codec: random value trees of depth <= 4 over atoms (None/bool/int up to
         'shared ranks incl. the empty ballot, int / Decimal / Fraction weights, any subset withdrawn, optional title; STV with and without '
         'system header (quota, mandatory, random, seats, title). blt_text / stv_text: 30 hand-made texts + 16 kinds of line / token / '
         'character mutations and truncations of written files (STV: also junk header lines). '
+        'stv_text also: the ordered ballot format (order=) — 33 hand-made texts, files written by the harness from documents (expected result '
+        'known) and their mutations. stv_sys: 28 directed + random evaluator trees: 0-4 VotingSystem / FixedSeatCount / TieBreaking wrappers in '
+        'any order around TransferableVoteSelector / Distributor (quota droop / hare / imperiali / constant / nameless / None, mandatory, '
+        'accept_quota_equal, retainer, elimination step, Hare transferer) or Plurality / Copeland; tie-breakers number / input order / Sortitor '
+        'with and without seed / PreConverted (three converters) / unsupported; titles incl. uncarriable ones; with and without n_seats. '
         'Non-trivial: codec depth >= 1; class saved without error; documents with >= 2 candidates and >= 1 ballot; texts > 8 characters.')
 NOT_VERIFIED = ['lexing of BLT/STV text (split, str(weight), Decimal(text), str.isdigit, STV header comments): the harness tokenises real '
                 'text with Python\'s own predicates; writer and parser are compared with the token-level model on those token lines. The BLT '
@@ -74,6 +86,12 @@ NOT_VERIFIED = ['lexing of BLT/STV text (split, str(weight), Decimal(text), str.
                 'object identity: candidate objects hash by identity, so two keys of equal content stay two keys in Python while the model '
                 '(values compared by content; precondition WFval: distinct keys) would merge them — random generators give object keys '
                 'distinct names, the directed class_identity_keys cases check the Python side by the oracle only',
+                'ordered ballot lines: item.isdecimal() / int(item) / item == "-" are a parameter (cls) of the model, computed by the harness with '
+                'Python\'s own predicates; the theorems hold for every classification',
+                'system trees (op stv_sys): InputOrderSelector and CandidateNumberRanker are one tie-breaker to the model (both are written '
+                'random=non), PreConverted converters inside RANKED_TO_SIMPLE are not told apart, the class Selector / Distributor is compared by '
+                'the model only (the writer declares that change with a warning); trees votelib cannot construct (FixedSeatCount around a '
+                'FixedSeatCount) are covered by the theorems only',
                 'the numeric TYPE of a loaded weight (int / Decimal / Fraction; a repeated ballot with a Decimal weight comes back as a '
                 'Fraction since 134a849): models and oracle compare loaded weights by exact value',
                 'the value algebra has exact builtin types only: an iterable that is not a list/tuple/set/frozenset (range, bytes, deque, subclasses) '
@@ -88,10 +106,7 @@ NOT_VERIFIED = ['lexing of BLT/STV text (split, str(weight), Decimal(text), str.
                 'their isdecimal()/int() classification, names and title with the flag whether _header_text lets them through; math.log in '
                 'the ordinal nickname length is modelled as the least k >= 1 with 26^k >= n; the objects _create_evaluator builds are '
                 'summarised as (title, seats, quota, mandatory, tie-break) and compared with the loaded system through that summary only']
-UNPROVED = ['stv_roundtrip holds for systems of the shape VotingSystem?(FixedSeatCount?(TieBreaking?(TransferableVoteSelector))) only; other '
-            'evaluator trees (which _dump_system silently writes partially or refuses) are covered by the correspondence of dumpSys, not by a theorem',
-            'stv_parse_total is stated up to the one construct outside the STV token model (the ordered format order=): '
-            'for it the exception type is checked by the oracle only']
+UNPROVED = []
 EXHAUSTIVE = {'thorough': True}
 
 # ------------------------------------------------------------------------------------------------ guards
@@ -678,6 +693,10 @@ def _tag_doc(c, pre):
     for n, _, _ in d['cands']:
         for o in IO.quote_hash_order(n):
             t.append(f'{pre}_name_{o}')
+        for o in IO.ws_features(n):
+            t.append(f'{pre}_name_{o}')
+    for o in IO.ws_features(d.get('title') or ''):
+        t.append(f'{pre}_title_{o}')
     for o in IO.quote_hash_order(d.get('title') or ''):
         t.append(f'{pre}_title_{o}')
     for h in _may_refuse_rt(c):
@@ -1109,13 +1128,11 @@ def _model_stv_text(case):
     blt = IO.stv_blt_rest(case['text'])
     if tk is None or blt is None:
         return None
-    return {'op': 'stv_load', 'hdr': tk[0], 'votes': tk[1], 'blt': blt}
+    return {'op': 'stv_load', 'hdr': tk[0], 'votes': tk[1], 'blt': blt, 'cls': IO.stv_cls(case['text'])}
 
 
 def _compare_stv_text(case, iobs, mobs):
     ml = mobs['loaded']
-    if _is_err(ml) and ml['err'] == 'unmodelled':
-        return None
     return _cmp_loaded(_stv_section(iobs['loaded']), ml)
 
 
@@ -1166,7 +1183,7 @@ def _gen_stv_rt(rng, n):
             sysd = {'quota': rng.choice(['droop', 'hare']), 'mandatory': rng.random() < 0.3,
                     'random': rng.choice([None, None, 'non', 7, 123]), 'seats': rng.choice(['fixed', 'arg', None]),
                     'wrap': rng.random() < 0.7}
-            doc = IO.gen_doc(rng, names=plain, title=rng.choice(['Council', 'A B', 'x=y', 'T']), weights=('int', 'dec', 'frac'))
+            doc = IO.gen_doc(rng, names=plain, title=rng.choice(['Council', 'A B', 'x=y', 'T', 'Ward\u00a03   East', 'A\t\tB']), weights=('int', 'dec', 'frac'))
             # weights the STV own format spells: n, n.d, p/q
             for b in doc['ballots']:
                 if rng.random() < 0.25:
@@ -1231,6 +1248,16 @@ def _oracle_stv_text(case, obs):
         return [('raises_' + got['exc'], 'a text that is not an STV file must raise STVParseError')]
     if not _is_err(got) and any(i < 0 for b in got['ballots'] for i in b[0]):
         return [('ballot_candidate_not_listed', 'a returned ballot names a candidate object that is not in the returned candidate list')]
+    exp = case.get('expect')
+    if exp is not None:                  # a file written by the harness itself (ordered format): candidates and ballots are known
+        if _is_err(got):
+            return [('rejected_valid', f"{got['exc']}: expected {json.dumps(exp)[:160]}")]
+        out = []
+        if got['cands'] != exp['cands']:
+            out.append(('names_differ', f"{exp['cands']} -> {got['cands']}"))
+        if not IO.same_ballots(exp['ballots'], got['ballots']):
+            out.append(('ballots_differ', f"{exp['ballots']} -> {got['ballots']}"))
+        return out
     return []
 
 
@@ -1249,9 +1276,84 @@ STV_HANDMADE = [
     # nicknames that differ in case only, a nickname used before it is declared in another case
     'method=BC\nquota=droop\ncandidate=a Ann\ncandidate=A Bob\nballots=3\na A\n2X A\nA a\nend\n',
     'method=BC\nquota=droop\ncandidate=ab Ann\nballots=1\nAB\nend\n', 'method=BC\nquota=droop\ncandidate=x Ann\nballots=1\nX\nend\n',
+    # white space runs inside names and titles stay as they are; between nickname and name any run separates
+    'method=BC\nquota=droop\ntitle=Ward\u00a03   East\ncandidate=al   Ann   Lee\ncandidate=b \t Bo\t\tRay \nwithdrawn=c\u00a0Cy\u00a0 \u00a0Vee\nballots=2\nal b\n2X c\nend\n',
+    'method=blt\nballots=blt\n2 1\n1 1 2 0\n0\n"Ann   Lee"\n"Bo\t\u00a0Ray"\n"Ward\u00a03   East"\n',
 ]
 STV_HEADER_JUNK = ['foo=bar', 'candidate=a', 'candidate=', 'withdrawn=x', 'seats=1', 'seats=x', 'random=1', 'random=x', 'quota=hare',
                    'quota=mandatory', 'method=BC', 'title=T', 'order=a b', 'order=zz', 'ballots=3', 'ballots=blt', '=', 'x', 'quota=7']
+
+
+STV_ORDERED_HANDMADE = [
+    # the order line: repeated, empty (= unordered), unknown nickname, a nickname twice, fewer nicknames than candidates
+    'method=BC\nquota=droop\ncandidate=a A\ncandidate=b B\norder=b a\norder=a b\nballots=1\n1 2\nend\n',
+    'method=BC\nquota=droop\ncandidate=a A\ncandidate=b B\norder=b a\norder=\nballots=1\nb a\nend\n',
+    'method=BC\nquota=droop\ncandidate=a A\norder=a zz\nballots=0\nend\n', 'method=BC\nquota=nosuch\ncandidate=a A\norder=zz\nballots=0\nend\n',
+    'method=BC\nquota=droop\ncandidate=a A\ncandidate=b B\norder=b b a\nballots=1\n1 2\nend\n',
+    'method=BC\nquota=droop\ncandidate=a A\ncandidate=b B\ncandidate=c C\norder=c\nballots=2\n1\n-\nend\n',
+    'method=BC\nquota=droop\ncandidate=a A\ncandidate=b B\norder=b a\ncandidate=c C\nballots=1\n2 1\nend\n',
+    'candidate=a A\norder=a\nmethod=BC\nquota=droop\nballots=1\n1\nend\n',
+    # ballot lines: ranks not 1..k, repeated, zero, too many items, other items, multipliers, empty ballots, blank lines, counts
+    'method=BC\nquota=droop\ncandidate=a A\ncandidate=b B\norder=a b\nballots=1\n1 3\nend\n',
+    'method=BC\nquota=droop\ncandidate=a A\ncandidate=b B\norder=a b\nballots=1\n1 1\nend\n',
+    'method=BC\nquota=droop\ncandidate=a A\ncandidate=b B\norder=a b\nballots=1\n0 1\nend\n',
+    'method=BC\nquota=droop\ncandidate=a A\ncandidate=b B\norder=a b\nballots=1\n2 -\nend\n',
+    'method=BC\nquota=droop\ncandidate=a A\ncandidate=b B\norder=a b\nballots=1\n1 2 3\nend\n',
+    'method=BC\nquota=droop\ncandidate=a A\ncandidate=b B\norder=a b\nballots=1\n1 2 -\nend\n',
+    'method=BC\nquota=droop\ncandidate=a A\ncandidate=b B\norder=a b\nballots=1\n1\nend\n',
+    'method=BC\nquota=droop\ncandidate=a A\ncandidate=b B\norder=a b\nballots=1\na b\nend\n',
+    'method=BC\nquota=droop\ncandidate=a A\ncandidate=b B\norder=a b\nballots=1\n1 x\nend\n',
+    'method=BC\nquota=droop\ncandidate=a A\ncandidate=b B\norder=a b\nballots=1\n+1 2\nend\n',
+    'method=BC\nquota=droop\ncandidate=a A\ncandidate=b B\norder=a b\nballots=1\n² 1\nend\n',
+    'method=BC\nquota=droop\ncandidate=a A\ncandidate=b B\norder=a b\nballots=1\n१ २\nend\n',
+    'method=BC\nquota=droop\ncandidate=a A\ncandidate=b B\norder=a b\nballots=1\n01 002\nend\n',
+    'method=BC\nquota=droop\ncandidate=a A\ncandidate=b B\norder=a b\nballots=4\n2X 1 2\n1/2X 1 2\n1.5X - 1\n3X - -\nend\n',
+    'method=BC\nquota=droop\ncandidate=a A\ncandidate=b B\norder=a b\nballots=3\n- -\n\n2X\nend\n',
+    'method=BC\nquota=droop\ncandidate=a A\ncandidate=b B\norder=a b\nballots=2\n1X\n-\nend\n',
+    'method=BC\nquota=droop\ncandidate=a A\ncandidate=b B\norder=a b\nballots=1\n1 2\n2 1\nend\n',
+    'method=BC\nquota=droop\ncandidate=a A\ncandidate=b B\norder=a b\nballots=1\n1 2\n', 'method=BC\nquota=droop\ncandidate=a A\norder=a\nballots=1\nzX 1\nend\n',
+    'method=BC\nquota=droop\ncandidate=a A\ncandidate=b B\norder=a b\nballots=1\nX 1 2\nend\n',
+    'method=BC\nquota=droop\ncandidate=a A\ncandidate=b B\norder=a b\nballots=1\n1 2 end\nend\n',
+    # the order line is ignored in BLT mode, but an unknown nickname is still refused
+    'method=blt\ncandidate=a A\norder=a\nballots=blt\n2 1\n1 2 1 0\n0\n', 'method=blt\norder=zz\nballots=blt\n2 1\n1 2 1 0\n0\n',
+    'method=BC\nquota=droop\ncandidate=a A\norder=zz\nballots=x\n',
+]
+
+
+def _gen_stv_ordered(rng, n):
+    """the ordered ballot format: hand-made texts; files written by the harness from a document (expected result known), plain and
+    mutated"""
+    for t in STV_ORDERED_HANDMADE:
+        yield {'op': 'stv_text', 'text': t, '_tags': ['stv_text', 'stv_ordered', 'mut_handmade'], '_origin': 'ordered_handmade'}
+    names = IO.NAMES_PLAIN + IO.NAMES_WS + ['J. Smith', 'x=y', 'Émile Ÿ', 'end', '1', '-']
+    for k in range(n):
+        doc = IO.gen_doc(rng, names=names, title='-', weights=('int', 'int', 'dec', 'frac'), big=False, max_c=rng.choice([2, 3, 4, 6, 9]))
+        doc['ballots'] = [b for b in doc['ballots'] if IO.weight_py(b[1]) >= 0]
+        nc = len(doc['cands'])
+        order = list(range(nc))
+        if rng.random() < 0.7:
+            rng.shuffle(order)
+        full = True
+        if nc > 1 and rng.random() < 0.2:        # some candidates are not in the order line: they cannot be ranked
+            order = order[:rng.randint(1, nc - 1)]
+            doc['ballots'] = [b for b in doc['ballots'] if all(c in order for c in b[0])]
+            full = False
+        nicks = rng.choice([None, None, [chr(97 + i) for i in range(nc)], [str(i + 1) for i in range(nc)], ['-'] + [f'c{i}' for i in range(1, nc)]])
+        if not order:
+            continue                              # an empty order line means the unordered format
+        text, exp = IO.ordered_text(doc, order, nicks, dup_order=rng.random() < 0.15, title=rng.choice([None, 'T']))
+        tags = ['stv_text', 'stv_ordered', 'stv_ordered_written'] + ([] if full else ['stv_ordered_partial_order'])
+        if any(not b[0] for b in doc['ballots']):
+            tags.append('stv_ordered_empty_ballot')
+        if rng.random() < 0.5:
+            yield {'op': 'stv_text', 'text': text, 'expect': exp, '_tags': tags, '_origin': 'ordered_written'}
+        else:
+            kinds = []
+            for _ in range(rng.choice([1, 1, 2])):
+                text, kind = IO.mutate_text(rng, text)
+                kinds.append(kind)
+            if not IO.huge_header(text):
+                yield {'op': 'stv_text', 'text': text, '_tags': ['stv_text', 'stv_ordered'] + ['mut_' + x for x in kinds], '_origin': 'ordered+' + '+'.join(kinds)}
 
 
 def _gen_stv_text(rng, n):
@@ -1280,7 +1382,8 @@ def _gen_stv_text(rng, n):
               'method=BC\nquota=droop\nquota=mandatory\nquota=x\nballots=0\nend\n', 'method=BC\nquota=hare\nquota=droop\nballots=0\nend\n',
               'method=BC\nquota=droop\nballots=zz\nfoo=1\n', 'method=BC\nquota=droop\nfoo=1\nballots=zz\n'):
         yield {'op': 'stv_text', 'text': t, '_tags': ['stv_text', 'stv_header_directed'], '_origin': 'header_directed'}
-    plain = [x for x in IO.NAMES_PLAIN if True]
+    yield from _gen_stv_ordered(rng, max(40, n // 5))
+    plain = IO.NAMES_PLAIN + IO.NAMES_WS
     for k in range(n):
         doc = IO.gen_doc(rng, names=plain, title='T', weights=('int', 'int', 'dec', 'frac'), big=False)
         doc['ballots'] = [b for b in doc['ballots'] if b[0]]
@@ -1303,16 +1406,60 @@ def _gen_stv_text(rng, n):
         yield {'op': 'stv_text', 'text': text, '_tags': ['stv_text'] + ['mut_' + x for x in kinds], '_origin': '+'.join(kinds)}
 
 
+# ------------------------------------------------------------------------------------------------ op stv_sys
+def _impl_stv_sys(case):
+    return SY.impl(case, _g)
+
+
+def _model_stv_sys(case):
+    line = {'op': 'stv_sys', 'sys': SY.model_tree(case['tree'])}
+    if case.get('seats_arg') is not None:
+        line['seats_arg'] = case['seats_arg']
+    return line
+
+
+def _compare_stv_sys(case, iobs, mobs):
+    """the writer's refusal, the header lines, and what the reader makes of them, against dumpSys / reloadSys; the structural
+    classification (sysRefused, sysReadable) against what happened"""
+    ml = mobs['lines']
+    if iobs['dump'] != 'ok':
+        if _is_err(ml) and ml['err'] == iobs['dump']['err'] and mobs['refused']:
+            return None
+        return f"dump: impl raises {iobs['dump']['exc']}, model {json.dumps(ml)[:120]} refused={mobs['refused']}"
+    if _is_err(ml) or mobs['refused']:
+        return f"dump: impl writes a file, model refuses ({json.dumps(ml)[:80]})"
+    tk = IO.stv_tokenise(iobs['text'])
+    if tk is None:
+        return None
+    hdr = [h['other'] for h in tk[0] if isinstance(h, dict) and 'other' in h]
+    want = ml + ([['seats', IO.stv_sval(str(case['seats_arg']))]] if case.get('seats_arg') is not None else [])
+    if hdr != want:
+        return f"header lines: impl={json.dumps(hdr)[:300]} model={json.dumps(want)[:300]}"
+    il, mr = iobs['loaded'], mobs['reload']
+    if _is_err(il) or _is_err(mr):
+        if _is_err(il) and _is_err(mr) and il['err'] == mr['err'] and not mobs['readable']:
+            return None
+        return f"reload: impl={json.dumps(il)[:200]} model={json.dumps(mr)[:200]} readable={mobs['readable']}"
+    if not mobs['readable']:
+        return 'reload: the model classifies the file as unreadable, the implementation reads it'
+    if il['summary'] != mr:
+        return f"reload: impl={json.dumps(il['summary'])[:200]} model={json.dumps(mr)[:200]}"
+    if mobs['complete'] and SY.oracle(case, iobs):
+        return 'the tree is written completely by the model (sysComplete) but the implementation does not round-trip it'
+    return None
+
+
 # ------------------------------------------------------------------------------------------------ dispatch
 IMPL = {'blt_clean': _impl_blt_clean, 'codec': _impl_codec, 'class_rt': _impl_class, 'class_sig': _impl_class_sig, 'blt_rt': _impl_blt_rt, 'blt_text': _impl_blt_text,
-        'stv_rt': _impl_stv_rt, 'stv_text': _impl_stv_text}
+        'stv_rt': _impl_stv_rt, 'stv_text': _impl_stv_text, 'stv_sys': _impl_stv_sys}
 ORACLE = {'blt_clean': _oracle_blt_clean, 'codec': _oracle_codec, 'class_rt': _oracle_class, 'class_sig': _oracle_class_sig, 'blt_rt': _oracle_rt, 'blt_text': _oracle_blt_text,
-          'stv_rt': _oracle_stv_rt, 'stv_text': _oracle_stv_text}
+          'stv_rt': _oracle_stv_rt, 'stv_text': _oracle_stv_text, 'stv_sys': (lambda case, obs: SY.oracle(case, obs))}
 MODEL = {'blt_clean': (lambda case: {'op': 'blt_clean', 'line': case['line']}), 'codec': _model_codec, 'class_rt': _model_class, 'blt_rt': _model_blt_rt, 'blt_text': _model_blt_text,
-         'stv_rt': _model_stv_rt, 'stv_text': _model_stv_text}
+         'stv_rt': _model_stv_rt, 'stv_text': _model_stv_text, 'stv_sys': _model_stv_sys}
 COMPARE = {'blt_clean': _compare_blt_clean, 'codec': _compare_codec, 'class_rt': _compare_class, 'blt_rt': _compare_blt_rt, 'blt_text': _compare_blt_text,
-           'stv_rt': _compare_stv_rt, 'stv_text': _compare_stv_text}
-HAZ = {'codec': _haz_codec, 'class_rt': _haz_class, 'stv_rt': _haz_stv}
+           'stv_rt': _compare_stv_rt, 'stv_text': _compare_stv_text, 'stv_sys': _compare_stv_sys}
+HAZ = {'codec': _haz_codec, 'class_rt': _haz_class, 'stv_rt': _haz_stv,
+       'stv_sys': (lambda case: set(SY.reasons(case['tree'], case.get('seats_arg'))))}      # why the format cannot carry the system
 
 
 def impl(case):
@@ -1340,12 +1487,19 @@ CLASS_CLAUSE_HAZ = {
 }
 
 
+# stv_sys: an unreadable file comes from a missing or repeated line, a changed system from a setting no line stands for (open findings)
+SYS_CLAUSE_HAZ = {'load_raises': ['unknown_evaluator', 'nameless_quota', 'duplicate_setting'],
+                  'system_differs': ['unseeded_sortitor', 'accept_quota_equal', 'tie_subsetter']}
+
+
 def signature(case, clause):
     """op : clause : hazard features of the input ('-' = none).  Generated io/codec cases carry at most one hazard."""
     f = HAZ.get(case['op'])
     h = sorted(f(case)) if f else []
     if case['op'] == 'class_rt':
         h = [x for x in CLASS_CLAUSE_HAZ.get(clause, []) if x in h][:1]
+    if case['op'] == 'stv_sys':
+        h = [x for x in SYS_CLAUSE_HAZ.get(clause, []) if x in h][:1]
     return f"{case['op']}:{clause}:{'+'.join(h) or '-'}"
 
 
@@ -1359,6 +1513,8 @@ def nontrivial(case, obs):
         return obs['n_classes'] > 50
     if op in ('blt_rt', 'stv_rt'):
         return len(case['doc']['ballots']) >= 1 and len(case['doc']['cands']) >= 2
+    if op == 'stv_sys':
+        return True
     if op == 'blt_clean':
         return len(case['line']) >= 2
     return len(case['text']) > 8
@@ -1372,6 +1528,9 @@ def describe(case):
         return 'votelib.persist.from_dict(votelib.persist.to_dict(props.c19_classes.build(spec)))'
     if op == 'class_sig':
         return 'constructor parameter names of every class carrying to_dict'
+    if op == 'stv_sys':
+        return (f"votelib.io.stv.loads(votelib.io.stv.dumps({SY.VOTES!r}, props.c19_stvsys.build({case['tree']!r}), {SY.CANDS!r}, "
+                f"{case.get('seats_arg')!r}))")
     if op == 'blt_rt':
         v, s, c, t = IO.build_doc(case['doc'])
         return f'votelib.io.blt.loads(votelib.io.blt.dumps({v!r}, {s!r}, {c!r}, {t!r}))'
@@ -1503,6 +1662,9 @@ def _tag_texts(cases):
             c['_tags'].append(fmt + '_text_repeated_decimal_weight')
         if fmt == 'stv' and IO.stv_blt_rest(c['text']):
             c['_tags'].append('stv_text_blt_content')
+        if fmt == 'stv' and any(isinstance(h, dict) and 'cand' in h and IO.ws_features(h['cand'][2])
+                                for h in (IO.stv_hline(l) for l in c['text'].split('\n'))):
+            c['_tags'].append('stv_text_name_inner_ws')
         yield c
 
 
@@ -1514,6 +1676,7 @@ def generate(rng, tier):
     yield from _tag_texts(_gen_blt_text(rng, 3000 if q else 40000))
     yield from _gen_stv_rt(rng, 2000 if q else 25000)
     yield from _tag_texts(_gen_stv_text(rng, 2000 if q else 25000))
+    yield from SY.gen(rng, 600 if q else 8000)
     yield from _gen_class(rng, 1400 if q else 12000, 120 if q else 1500)
     if not q:
         yield from _exhaustive_blt()
@@ -1533,8 +1696,13 @@ LEVEL_TEXT = ('The dict codec of persist.py (serialize_value / deserialize_value
               '(blt_repeated_ballot_exact); STV nicknames never collide, a whole STV file (system header, candidates, ballots incl. empty ones, '
               'Decimal weights, title None) round-trips in the own format (Stv.stv_roundtrip) and in BLT mode (Stv.stv_blt_mode_roundtrip), the STV '
               'writer raises NotSupportedInSTV for every negative weight (Stv.stv_dump_refuses_negative), the STV reader — own format and BLT '
-              'content — raises only STVParseError / NotImplementedError on any token lines (Stv.stv_parse_total) and returns ballots for '
-              'candidates of the returned list only (Stv.stv_loaded_indices_valid). '
+              'content, unordered and ordered (order=) ballot format — raises only STVParseError / NotImplementedError on any token lines '
+              '(Stv.stv_parse_total, no construct left outside the model) and returns ballots for candidates of the returned list only '
+              '(Stv.stv_loaded_indices_valid). For ARBITRARY evaluator trees (wrappers in any order and number around any evaluator) the system '
+              'header falls, by the shape of the tree alone, into exactly one of: refused with NotSupportedInSTV, written to a file the reader '
+              'refuses, written to a file that reloads to the settings read off the tree (Stv.stv_sys_classification); every tree that is '
+              'written completely round-trips as a whole file (Stv.stv_roundtrip_complete_system), for every other one the dump refuses, the '
+              'reload fails or a setting is lost (Stv.stv_sys_incomplete, witnesses in Stv.stv_sys_witnesses; open findings). '
               'All 109 classes carrying to_dict, the STV system header and text lexing are covered by the differential correspondence and a direct '
               'round-trip / outcome / exception-type oracle on every run.')
 LEVEL_NOTE = ('Trusted: Lean kernel + propext/Classical.choice/Quot.sound; the correspondence harness (generators, tokeniser, canonicalisation); '
